@@ -2,6 +2,7 @@
 from .. import common as C
 from .. import server_sim as S
 from .. import pycodec
+from .. import gen as G
 
 LEVEL = 'proof'
 
@@ -9,22 +10,40 @@ PROFILE = {
     'weights': {'event': 14, 'connect': 6, 'open': 2, 'emit': 1, 'emit_cb': 0, 'ack': 0, 'enter': 0, 'leave': 0,
                 'close': 0, 'rooms': 0, 'api_disconnect': 1, 'client_disconnect': 2, 'lost': 1, 'partial_binary': 1},
     'connect_outcomes': {'accept': 8, 'false': 1, 'refuse': 1, 'raise': 0},
+    'asset_p': 0.5,      # handlers often return a value the application keeps (same object every time)
 }
 
 
 def oracle(cfg, trace, residue):
+    return judge(cfg, trace)
+
+
+def judge(cfg, trace, stats=None):
     """The statement, judged on the implementation's observations with the harness's own view of
-    who is connected (from CONNECT / DISCONNECT packets seen on the wire)."""
+    who is connected (from CONNECT / DISCONNECT packets seen on the wire).  `stats` (optional) receives what the
+    case exercised."""
     fails = []
+    stats = stats if stats is not None else {}
+    acked_values = {}   # repr of a script return value -> number of ACKs that had to carry it so far
     conn = {}          # (tid, ns) -> sid
     pend = {}          # tid -> frames of a binary packet being sent
     nev = 0            # event-handler invocations so far (index into the script)
     for op, im, _mo in trace:
         before = dict(conn)
+        if im.get('app_modified'):
+            # "the ACK carries the handler's return value": the value is the application's, the library may read it
+            fails.append((None, 'while handling %r the library modified an object that belongs to the application: %s'
+                          % (S._brief(op), '; '.join(im['app_modified']))))
+        if im.get('escaped'):
+            fails.append((None, 'an exception escaped from the server\'s engine.io callback / API while handling %r: %s'
+                          % (S._brief(op), ', '.join(im['escaped']))))
         # learn connection state from the wire
         for tid, frames in im['sends'].items():
-            for p in pycodec.decode_stream(frames):
-                if p['type'] == 0:
+            for p in _decode(frames):
+                if p['type'] == 'undecodable':
+                    fails.append((None, 'what the server sent to %s while handling %r is not a sequence of well-formed '
+                                        'packets: %r' % (tid, S._brief(op), frames)))
+                elif p['type'] == 0:
                     conn[(tid, p['ns'])] = p['data']['sid']
                 elif p['type'] == 1:
                     conn.pop((tid, p['ns']), None)
@@ -85,7 +104,7 @@ def oracle(cfg, trace, residue):
                 fails.append((None, 'handler arguments are not sid + event arguments: %r for %r' % (args, p['data'])))
         acks = []
         for tid, frames in im['sends'].items():
-            for q in pycodec.decode_stream(frames):
+            for q in _decode(frames):
                 if q['type'] in (3, 6):
                     acks.append((tid, q))
                 elif tid != t:
@@ -102,7 +121,29 @@ def oracle(cfg, trace, residue):
                 want = [] if ret is None else (list(ret) if isinstance(ret, tuple) else [ret])
                 if not C.same(_norm(acks[0][1]['data']), _norm(want)):
                     fails.append((None, 'ACK payload %r is not the handler\'s return value %r' % (acks[0][1]['data'], ret)))
+                if (acks[0][1]['type'] == 6) != G.has_bytes(want):
+                    fails.append((None, 'the ACK for return value %r is %s' % (
+                        ret, 'not a binary ACK' if G.has_bytes(want) else 'a binary ACK although there are no bytes')))
+                if im.get('handler_cancelled'):
+                    stats['acks_after_cancelled_handler'] = stats.get('acks_after_cancelled_handler', 0) + 1
+                if isinstance(ret, (list, dict, tuple)):
+                    n = acked_values[repr(ret)] = acked_values.get(repr(ret), 0) + 1
+                    if n >= 2:
+                        # the application returned the very same object before (the harness keeps one per value)
+                        stats['acks_of_value_returned_before'] = stats.get('acks_of_value_returned_before', 0) + 1
+                        if S._nested_bytes(ret):
+                            stats['binary_acks_of_value_returned_before'] = \
+                                stats.get('binary_acks_of_value_returned_before', 0) + 1
     return fails
+
+
+def _decode(frames):
+    """server -> client frames of one step, decoded by the independent codec; frames it cannot put together
+    (placeholders without attachment, missing attachments ...) come back as one 'undecodable' pseudo packet"""
+    try:
+        return pycodec.decode_stream(frames)
+    except Exception:   # noqa
+        return [{'type': 'undecodable', 'ns': None, 'id': None, 'data': repr(frames)}]
 
 
 def _norm(v):
@@ -122,6 +163,12 @@ def _cls_responsible(cfg, ns):
 
 def nontrivial(cfg, trace):
     k = 0
+    stats = {}
+    judge(cfg, trace, stats)
+    for key, v in stats.items():
+        _CTX[0].count(key, v)
+    if stats.get('binary_acks_of_value_returned_before'):
+        _CTX[0].count('cases_with_repeated_binary_ack_of_held_value')
     for op, im, _ in trace:
         if op['op'] in ('frame', 'frameval') and any(q for fr in im['sends'].values() for q in fr if isinstance(q, bytes)):
             k += 1
@@ -131,15 +178,24 @@ def nontrivial(cfg, trace):
     return None
 
 
+_CTX = [None]
+
+
 def run(ctx):
+    _CTX[0] = ctx
     C.proof_step(ctx, ['engine.io delivers one transport\'s messages sequentially and contains handler exceptions'])
     S.run_cases(ctx, PROFILE, ctx.scale(120, 2500), 40, oracle=oracle, nontrivial=nontrivial)
     # an event that arrives while the same client's disconnect is in progress (asyncio, all release orders)
     from .. import sched_async
     sched_async.run_event_during_disconnect(ctx)
     ctx.coverage['rule'] = ('generated scenarios (several clients/namespaces, function/catch-all/class handlers, ids None/0/equal '
-                            'across clients/huge, binary arguments, handlers returning None/scalars/lists/dicts/tuples/bytes) run on '
-                            'Server and AsyncServer and on the Lean model, compared op by op; oracle = statement of C05 on the wire. '
+                            'across clients/huge, binary arguments, handlers returning None/scalars/lists/dicts/tuples/bytes; the '
+                            'application keeps ONE object per distinct return / emit value and hands the same object over every '
+                            'time, checked unmodified after every step; coroutine handlers that end with asyncio.CancelledError '
+                            'where the script says accept / return None / handled) run on '
+                            'Server and AsyncServer and on the Lean model, compared op by op; oracle = statement of C05 on the wire '
+                            '(one ACK, same id and namespace, to the sender only, binary iff the return value contains bytes, payload '
+                            'equal to the return value). '
                             'non-trivial = scenario with >=3 handled events and >=1 binary ACK')
 
 
